@@ -1261,7 +1261,13 @@ class AgProtocol(utils.EventEmitter):
                 handler_name = f'_on_{command.code.lower()}'
 
             if handler := getattr(self, handler_name, None):
-                handler(*command.parameters)
+                try:
+                    handler(*command.parameters)
+                except Exception:
+                    # Wrong number of parameters or values that cannot be parsed:
+                    # the command must still be concluded by a final result code.
+                    logger.exception('Exception in handler %s', handler_name)
+                    self.send_response('ERROR')
             else:
                 logger.warning('Handler %s not found', handler_name)
                 self.send_response('ERROR')
